@@ -3,6 +3,7 @@ import Martian.FormatExp
 import Martian.FormatCall
 import Driver.Util
 import Driver.C09Decl
+import Driver.C09Stage
 
 /-! Line-protocol handler for property C09 (formatter core). -/
 namespace Driver.C09
@@ -180,6 +181,6 @@ def handle (op : String) (args : List String) : Option String :=
   | "normcall", [c] => do
     let c ← decCall c
     pure (encCall (Martian.FormatCall.normCall c))
-  | op, args => Driver.C09.handleDecl op args
+  | op, args => Driver.C09.handleDecl op args <|> Driver.C09.handleStage op args
 
 end Driver.C09
